@@ -163,9 +163,14 @@ package tan
 //@ func (x singleWriter) Write [C10]
 //@ trusted chunk framing inherited from pebble's record writer (not verified)
 //@ modifies *x.w
-//@ func (w *writer) writePending [C10]
-//@ trusted flushes the pending block to the file and records any error in w.err
-//@ modifies *w
+// still trusted (its body slices an array field, outside the subset), but now with the contract its callers are
+// verified against: an error of the underlying writer is RECORDED in w.err, and a recorded error is sticky
+//@ func (w *writer) writePending [C10 C04]
+//@ trusted flushes the pending block to the file and records any error in w.err (slices the array field w.buf: outside the subset)
+//@ modifies w.err, w.pending, w.written, gWriteFailed, gDataSynced
+//@ ensures old(w.err) != nil ==> w.err != nil && gWriteFailed == old(gWriteFailed)
+//@ ensures gWriteFailed && !old(gWriteFailed) ==> w.err != nil
+//@ ensures old(gWriteFailed) ==> gWriteFailed
 
 //@ func (w *writer) writeRecord [C10 C04]
 //@ modifies *w, gWriteFailed, gDataSynced
@@ -211,10 +216,16 @@ package tan
 //@ func newWriter [C10]
 //@ trusted allocates a record writer over the file
 //@ ensures result != nil
-//@ func (w *writer) close [C10]
-//@ trusted flushes the last block; reports the writer's error
-//@ ghostset gWriteFailed := old(gWriteFailed) || result != nil
+// verified (were trusted): close and flush REPORT a write error -- one recorded earlier or one met while writing the
+// last block -- instead of assuming they do
+//@ func (w *writer) close [C10 C04]
+//@ noframe
+//@ nobounds
+//@ modifies w.err, w.pending, w.written, w.seq, gWriteFailed, gDataSynced
 //@ ghostset gDataSynced := false
+//@ ensures gWriteFailed && !old(gWriteFailed) ==> result != nil
+//@ ensures old(w.err) != nil ==> result != nil
+//@ ensures old(gWriteFailed) ==> gWriteFailed
 //@ func (w *writer) next [C10]
 //@ trusted starts a new record
 //@ ghostset gWriteFailed := old(gWriteFailed) || result1 != nil
@@ -310,10 +321,16 @@ package tan
 //@ trusted encodes the edit into the MANIFEST record writer
 //@ ghostset gWriteFailed := old(gWriteFailed) || result != nil
 //@ ghostset gDataSynced := false
-//@ func (w *writer) flush [C10]
-//@ trusted flushes the record writer
+//@ iface (f flusher) Flush
 //@ ghostset gWriteFailed := old(gWriteFailed) || result != nil
+//@ func (w *writer) flush [C10 C04]
+//@ noframe
+//@ nobounds
+//@ modifies w.err, w.pending, w.written, w.seq, gWriteFailed, gDataSynced
 //@ ghostset gDataSynced := false
+//@ ensures gWriteFailed && !old(gWriteFailed) ==> result != nil
+//@ ensures old(w.err) != nil ==> result != nil
+//@ ensures old(gWriteFailed) ==> gWriteFailed
 //@ func (w *writer) size [C10]
 //@ trusted in-memory
 
